@@ -440,6 +440,10 @@ def eval_case(ctx: Ctx, c: dict):
                 ctx.count("compress.case-variant")
                 if not case_variant:
                     ctx.fail("C01/compress/value-differs", f"compressed {ls!r} decodes to {ref!r}", rep)
+        for k_, v_ in table.items():
+            if v_ > 0x3FFF:
+                ctx.fail("C01/compress/table-offset-beyond-14-bits", f"compression table entry {enc_labels(k_.labels)} -> {v_}: a pointer cannot address it (pad {pad}, names {names!r})", rep)
+                break
         tbl = ";".join(f"{enc_labels(k_.labels)}@{v_}" for k_, v_ in table.items())
         impl = f"ok {hx(buf[pad:])} tbl={tbl} dec={';'.join(decs)}"
         ctx.corr(f"n.towirec {pad} " + " ".join(enc_labels(n) for n in names), impl, c)
